@@ -84,8 +84,9 @@ CHECKS = {
         note=TV_NOTE + "Additionally trusted for the ordering/import theorems: the hand-written models (tied by exact comparison on every run: macro_resolution_order of the main file and of "
              "every imported file, the paths _resolve_imported_file returns on the real temporary tree, error classes), igraph's behaviour as modelled (bfsiter visits out-neighbours in "
              "vertex-id order; get_all_simple_paths non-empty iff reachable), os.path.realpath modelled as lexical normalisation (the trees contain no symbolic links), the harness reading "
-             "of the import rules of docs/language_spec.rst. Known findings on the pinned tree (check exits 0 with KNOWN-FINDING lines): macro_order_not_topological, "
-             "macro_posmark_nested_hang (compile never returns), invalid_layout_accepted:routines_in_import (imported files with routines are accepted), import_candidate_is_directory. "
+             "of the import rules of docs/language_spec.rst. Known finding on the current tree (check exits 0 with a KNOWN-FINDING line): macro_order_not_topological; three more defects this check found "
+             "(compile never returning for position marks in nested macros of one file, imported files with routines accepted, a directory taken for an import candidate) were "
+             "repaired in /repo meanwhile (1dfd06a, 71619a5, 804e3de) and are recorded as fixed. "
              "Parameters receiving $PERFORMANCE_PROGRESS_LIST, non-integer arguments in integer-like positions and imports starting with '.' but not './' are outside the generated set."),
 }
 
